@@ -259,11 +259,70 @@ end
 
 /-! ## `copy()` and the rebuild: which class comes back -/
 
-/-- the class of `dt.copy()`: `LimitsType.copy` (1318-1319) and `TextType.copy` (732-734) return their own class,
-`StatusType` inherits `TupleOf.copy` (926-928), which builds a plain `TupleOf` -/
-def copyCls : String → String
-  | "limits" => "limits"
-  | "text" => "text"
-  | _ => ""
+mutual
+/-- what `get_datatype` builds from a description: instances of the ten base classes only (`DATATYPES`, 1381-1407) -/
+def ofKind : DType F → CType F
+  | .array e a b => .array (ofKind e) a b
+  | .tuple es => .tuple (ofKindList es)
+  | .struct ms opt c => .struct (ofKindFields ms) opt c
+  | t => .leaf t
+def ofKindList : List (DType F) → List (CType F)
+  | [] => []
+  | t :: ts => ofKind t :: ofKindList ts
+def ofKindFields : List (String × DType F) → List (String × CType F)
+  | [] => []
+  | (k, t) :: ts => (k, ofKind t) :: ofKindFields ts
+end
+
+/-- the rebuilt datatype of a tree with derived classes: the description is the one of the kind tree -/
+def rebuildC (a : CType F) : CType F := ofKind a.erase
+
+mutual
+/-- `dt.copy()`, classes only (what the copy of a leaf *is* is `Datainfo.copy`): containers copy their members by
+`m.copy()` (806-808, 926-928, 1024-1028), `TextType.copy` (732-734) and `LimitsType.copy` (1318-1319) return their own
+class, `StatusType` inherits `TupleOf.copy`, which builds a plain `TupleOf` of the copied members -/
+def copyC : CType F → CType F
+  | .leaf t => .leaf t
+  | .text n => .text n
+  | .array e a b => .array (copyC e) a b
+  | .tuple es => .tuple (copyCList es)
+  | .limits m => .limits (copyC m)
+  | .status ms => .tuple [.leaf (.enum ms), .leaf (.string 0 unlimitedChars false)]
+  | .struct ms opt c => .struct (copyCFields ms) opt c
+def copyCList : List (CType F) → List (CType F)
+  | [] => []
+  | t :: ts => copyC t :: copyCList ts
+def copyCFields : List (String × CType F) → List (String × CType F)
+  | [] => []
+  | (k, t) :: ts => (k, copyC t) :: copyCFields ts
+end
+
+/-- the classes of a tree, kinds and properties left out (what the harness compares for a copy / a rebuilt type) -/
+inductive Skel where
+  | leaf
+  | text
+  | array (e : Skel)
+  | tuple (es : List Skel)
+  | limits (m : Skel)
+  | status
+  | struct (ms : List (String × Skel))
+  deriving Inhabited
+
+mutual
+def CType.skel : CType F → Skel
+  | .leaf _ => .leaf
+  | .text _ => .text
+  | .array e _ _ => .array e.skel
+  | .tuple es => .tuple (CType.skelList es)
+  | .limits m => .limits m.skel
+  | .status _ => .status
+  | .struct ms _ _ => .struct (CType.skelFields ms)
+def CType.skelList : List (CType F) → List Skel
+  | [] => []
+  | t :: ts => t.skel :: CType.skelList ts
+def CType.skelFields : List (String × CType F) → List (String × Skel)
+  | [] => []
+  | (k, t) :: ts => (k, t.skel) :: CType.skelFields ts
+end
 
 end Frappy.Datatypes
